@@ -16,7 +16,7 @@
 (***************************************************************************)
 EXTENDS Integers, Sequences, FiniteSets, TLC, Json, IOUtils
 Rows == ndJsonDeserialize(IOEnv.VERIF_TRACE)
-HashNeutral == {"none", "signature"}
+HashNeutral == {"none", "own-signature"}   \* a block's hash is unaffected by its signature
 RowOK(r) ==
   CASE r.k = "mut" -> r.same = (r.field \in HashNeutral)
     [] r.k = "codec" -> r.ok /\ r.same /\ ~r.panic
